@@ -55,7 +55,12 @@ class Interp:
         if isinstance(e, ast.Constant):
             if e.value is None or isinstance(e.value, bool):
                 return e.value
+            if self.mode == 'ordering' and isinstance(e.value, (int, float)):
+                return e.value
             self.fail(e, '(only None/True/False constants)')
+        if isinstance(e, ast.UnaryOp) and isinstance(e.op, ast.USub) and self.mode == 'ordering' \
+                and isinstance(e.operand, ast.Constant) and isinstance(e.operand.value, (int, float)):
+            return -e.operand.value
         if isinstance(e, ast.Name):
             self.fail(e, '(unbound name)')
         if isinstance(e, ast.BoolOp):
